@@ -278,9 +278,10 @@ def readlinkH (env : Env) (h : ProcH) (base : Base) (subpath : Bytes) : M Bytes 
 
 /-- `ProcfsHandle::open_follow` -/
 def openFollowH (env : Env) (h : ProcH) (base : Base) (subpath : Bytes) (oflags : Nat) : M Fd :=
+  -- the trailing slash first: it adds `O_DIRECTORY`, which can complete `O_TMPFILE`
+  let oflags := if (Path.stripTrailingSlash subpath).2 then oflags ||| O_DIRECTORY else oflags
+  let subpath := (Path.stripTrailingSlash subpath).1
   if hasAny oflags (O_CREAT ||| O_EXCL) || hasAll oflags O_TMPFILE then throw .invalidArgument else do
-  let (subpath, trailingSlash) := Path.stripTrailingSlash subpath
-  let oflags := if trailingSlash then oflags ||| O_DIRECTORY else oflags
   let isLink ← M.isOk (readlinkH env h base subpath)
   if !isLink then
     openH env retryFuel h base subpath oflags
